@@ -140,4 +140,52 @@ Proof.
   destruct H as (l & Hr & HD & _). rewrite app_nil_r in Hr. subst. exact HD.
 Qed.
 
+
+(* ---- the stratified grammar is unambiguous: an operator sequence has at most one tree ---- *)
+Lemma D_all_ge : forall p h l t, D p h l t -> Forall (fun oa => p <= prec (fst oa)) l.
+Proof.
+  intros p h l t HD. induction HD as [p h0 | p h0 l t HD IH | p h0 la o a lb ta tb Hp HDa IHa HDb IHb].
+  - constructor.
+  - eapply Forall_impl; [|exact IH]. intros x Hx. cbn in Hx. lia.
+  - apply Forall_app. split; [exact IHa|]. constructor; [cbn; lia|].
+    eapply Forall_impl; [|exact IHb]. intros x Hx. cbn in Hx. lia.
+Qed.
+
+Lemma split_unique : forall (Q: op * atom -> Prop) l1 x l2 l1' x' l2',
+  l1 ++ x :: l2 = l1' ++ x' :: l2' -> Q x -> Q x' -> Forall (fun y => ~ Q y) l2 -> Forall (fun y => ~ Q y) l2' ->
+  l1 = l1' /\ x = x' /\ l2 = l2'.
+Proof.
+  intros Q. induction l1 as [|y l1 IH]; intros x l2 l1' x' l2' E Qx Qx' F2 F2'.
+  - destruct l1' as [|y' l1']; cbn in E.
+    + injection E as -> ->. auto.
+    + injection E as -> ->. exfalso. rewrite Forall_forall in F2. apply (F2 x'); [apply in_or_app; right; left; reflexivity|exact Qx'].
+  - destruct l1' as [|y' l1']; cbn in E.
+    + injection E as -> <-. exfalso. rewrite Forall_forall in F2'. apply (F2' x); [apply in_or_app; right; left; reflexivity|exact Qx].
+    + injection E as -> E. destruct (IH _ _ _ _ _ E Qx Qx' F2 F2') as (-> & -> & ->). auto.
+Qed.
+
+Theorem D_unique : forall p h l t1, D p h l t1 -> forall t2, D p h l t2 -> t1 = t2.
+Proof.
+  intros p h l t1 HD. induction HD as [p h0 | p h0 l t HD IH | p h0 la o a lb ta tb Hp HDa IHa HDb IHb]; intros t2 H2.
+  - symmetry. eapply D_nil; [exact H2|reflexivity].
+  - inversion H2 as [p' h' | p' h' l' t' H2' | p' h' la' o' a' lb' ta' tb' Hp' HDa' HDb']; subst.
+    + eapply D_nil; [exact HD|reflexivity].
+    + apply IH. exact H2'.
+    + exfalso. apply D_all_ge in HD. rewrite Forall_forall in HD.
+      specialize (HD (o', a') ltac:(apply in_or_app; right; left; reflexivity)). cbn in HD. lia.
+  - inversion H2 as [p' h' | p' h' l' t' H2' | p' h' la' o' a' lb' ta' tb' Hp' HDa' HDb' El]; subst.
+    + destruct la; discriminate.
+    + exfalso. apply D_all_ge in H2'. rewrite Forall_forall in H2'.
+      specialize (H2' (o, a) ltac:(apply in_or_app; right; left; reflexivity)). cbn in H2'. lia.
+    + pose proof (D_all_ge _ _ _ _ HDb) as Gb. pose proof (D_all_ge _ _ _ _ HDb') as Gb'.
+      assert (A1: Forall (fun y => ~ prec (fst y) = prec o) lb).
+      { eapply Forall_impl; [|exact Gb]. intros x Hx Hq. cbn in Hx. lia. }
+      assert (A2: Forall (fun y => ~ prec (fst y) = prec o) lb').
+      { eapply Forall_impl; [|exact Gb']. intros x Hx Hq. cbn in Hx. lia. }
+      match goal with El: _ ++ _ :: _ = _ ++ _ :: _ |- _ =>
+        destruct (split_unique (fun oa => prec (fst oa) = prec o) _ _ _ _ _ _ El) as (E1 & E2 & E3);
+        try assumption; try reflexivity end.
+      injection E2 as E2a E2b. subst. f_equal; [apply IHa; exact HDa'|apply IHb; exact HDb'].
+Qed.
+
 End Climb.
